@@ -39,7 +39,7 @@ Proof. destruct v; discriminate. Qed.
 
 (* what the normalisation is for: a bare str is wrapped (compared as a whole), every iterable is used as it is *)
 Lemma normalise_spec v :
-  normalise gen_is_nonstr_iter v = match v with PStr _ | PAtom => Wrapped v | _ => Self v end.
+  normalise gen_is_nonstr_iter v = match v with PStr _ | PAtom | PEq _ => Wrapped v | _ => Self v end.
 Proof. destruct v; reflexivity. Qed.
 
 (* without the normalisation Python's [in] on a bare str is a substring test ("treats a string permission as a
@@ -51,6 +51,10 @@ Example raw_membership_differs :
   let vi := [118; 105]%N in let view := [118; 105; 101; 119]%N in
   contains gen_all_contains vi (Self (PStr view)) = true /\ perm_has vi (PStr view) = false.
 Proof. vm_compute. split; reflexivity. Qed.
+
+(* an application object (no str, no __iter__) whose __eq__ equals exactly the name s is, for the code, the permission s *)
+Lemma eq_object_is_its_name p s : perm_in p (PEq s) = perm_in p (PStr s).
+Proof. reflexivity. Qed.
 
 Lemma ace_matches_spec ps p e : ace_matches ps p e = spec_matches ps p e.
 Proof. unfold ace_matches, spec_matches. rewrite perm_in_spec. reflexivity. Qed.
